@@ -731,6 +731,23 @@ func shortExpr(p *Prog, v ssa.Value) string {
 func poolBufferOrigin(p *Prog, v ssa.Value) *ssa.Call {
 	var get *ssa.Call
 	seen := map[ssa.Value]bool{}
+	// a field of an object handed in as a parameter (a helper filling a packet its caller allocated): the values this
+	// function stores to the same field path of the same parameter
+	paramRooted := func(addr ssa.Value, visit func(ssa.Value)) {
+		fa, ok := addr.(*ssa.FieldAddr)
+		if !ok {
+			return
+		}
+		par, ok := p.origin(addrRoot(fa)).(*ssa.Parameter)
+		if !ok {
+			return
+		}
+		instrsOf(par.Parent(), func(in ssa.Instruction) {
+			if st, ok := in.(*ssa.Store); ok && p.origin(addrRoot(st.Addr)) == ssa.Value(par) && sameFieldPath(st.Addr, fa) {
+				visit(st.Val)
+			}
+		})
+	}
 	var walk func(v ssa.Value, d int)
 	walk = func(v ssa.Value, d int) {
 		if v == nil || seen[v] || d > 30 || get != nil {
@@ -766,6 +783,7 @@ func poolBufferOrigin(p *Prog, v ssa.Value) *ssa.Call {
 						}
 					}
 				}
+				paramRooted(x.X, func(v ssa.Value) { walk(v, d+1) })
 			}
 		case *ssa.FieldAddr:
 			// field of a local object: values stored to that field
@@ -776,6 +794,7 @@ func poolBufferOrigin(p *Prog, v ssa.Value) *ssa.Call {
 					}
 				}
 			}
+			paramRooted(x, func(v ssa.Value) { walk(v, d+1) })
 		}
 	}
 	walk(v, 0)
@@ -951,6 +970,10 @@ func fF2(p *Prog, o *obls, fn *ssa.Function) {
 			var wit *ssa.BinOp
 			for _, class := range classes {
 				ub, ok, w := p.upperBoundInClass(class, isSrcLen)
+				if !ok {
+					// the copy sits in a helper: the length test is made by every caller
+					ub, ok, w = p.callerLenBound(fn, src, class, ipDepth)
+				}
 				if ok {
 					anyGuard = true
 					if ub > worst {
@@ -1293,4 +1316,85 @@ func transitiveUsers(p *Prog, v ssa.Value) []ssa.Instruction {
 		out = append(out, r)
 	}
 	return out
+}
+
+// callerLenBound: v is a slice parameter of fn; returns an upper bound of its length established at every call site of
+// fn, on the caller's path classes that are consistent with the callee's class `local` (a boolean parameter tested in
+// the callee must not be contradicted by what the caller knows about the corresponding argument).
+func (p *Prog) callerLenBound(fn *ssa.Function, v ssa.Value, local []condFact, depth int) (int64, bool, *ssa.BinOp) {
+	par, ok := p.origin(v).(*ssa.Parameter)
+	if !ok || depth <= 0 || par.Parent() != fn {
+		return 0, false, nil
+	}
+	args, sites, closed := p.argsForParam(par)
+	if !closed || len(args) == 0 {
+		return 0, false, nil
+	}
+	paramIdx := func(q *ssa.Parameter) int {
+		for i, x := range fn.Params {
+			if x == q {
+				return i
+			}
+		}
+		return -1
+	}
+	worst := int64(-1)
+	var wit *ssa.BinOp
+	for i, site := range sites {
+		if _, isGo := site.(*ssa.Go); isGo {
+			return 0, false, nil
+		}
+		caller := site.Parent()
+		argKey := p.pureKey(args[i])
+		isArgLen := func(x ssa.Value) bool { return isLenOf(p, x, argKey) }
+		in, _ := site.(ssa.Instruction)
+		n := 0
+		for _, cc := range p.factsAt(in.Block()) {
+			// consistent with the callee's class?
+			consistent := true
+			for _, lf := range local {
+				q, ok := p.origin(lf.cond).(*ssa.Parameter)
+				if !ok || q.Parent() != fn {
+					continue
+				}
+				k := paramIdx(q)
+				if k < 0 || k >= len(site.Common().Args) {
+					continue
+				}
+				a := site.Common().Args[k]
+				if c, isC := p.origin(a).(*ssa.Const); isC && c.Value != nil {
+					if (c.Value.String() == "true") != lf.truth {
+						consistent = false
+					}
+					continue
+				}
+				for _, cf := range cc {
+					if (cf.cond == a || p.origin(cf.cond) == p.origin(a)) && cf.truth != lf.truth {
+						consistent = false
+					}
+				}
+			}
+			if !consistent {
+				continue
+			}
+			n++
+			ub, ok, w := p.upperBoundInClass(cc, isArgLen)
+			if !ok {
+				ub, ok, w = p.callerLenBound(caller, args[i], cc, depth-1)
+			}
+			if !ok {
+				return 0, false, nil
+			}
+			if ub > worst {
+				worst, wit = ub, w
+			}
+		}
+		if n == 0 {
+			continue // the helper's class is never entered from this site
+		}
+	}
+	if worst < 0 {
+		return 0, false, nil
+	}
+	return worst, true, wit
 }
